@@ -296,12 +296,15 @@ def observe(sc, r):
     # error reports; in JSON single-target mode they are plain lines
     msgs2 = re.findall(MSG_RE, out)
     wlabels = []
-    if sc['where'] == 'file' and okind in ('json', 'policy-json') and kind == 2:
-        # -T with -j prints ONE JSON array; an element with an 'error' key wraps the report of a target that could not be audited
+    if okind in ('json', 'policy-json') and kind == 2:
+        # -T with -j prints ONE JSON array; an element with an 'error' key wraps the report of a target that could not be audited.
+        # A single target that could not be audited is the same kind of document on its own (fix 3d5c3d7).
         try:
             arr = json.loads(out)
         except ValueError:
             arr = None
+        if sc['where'] != 'file':
+            arr = [arr] if isinstance(arr, dict) and 'error' in arr else None
         if isinstance(arr, list):
             labels, msgs2 = [], []
             for el in arr:
@@ -436,8 +439,8 @@ def oracle(ctx, sc, ob):
                 v6 = 'ipv6' if host_kind(h) == 'v6' else host_kind(h)
                 ctx.violation('label/%s/%s/%s' % (sc['out'], v6, 'missing' if not ob['labels'] else 'does-not-denote-target'),
                               'target host %r port %d: the %s report carries the labels %r which read as %r under the documented target grammar' % (h, p, sc['out'], ob['labels'], dec), replay)
-        if sc['where'] == 'file' and sc['out'] in ('json', 'policy-json'):
-            # a target that could not be audited is reported as a JSON element {"target": ..., "error": ...}
+        if sc['out'] in ('json', 'policy-json'):
+            # a target that could not be audited is reported as a JSON element (single target: as the document) {"target": ..., "error": ...}
             for (t, h, p, _v) in exp:
                 if want_dial(sc, h, p) is not None or [h, p, fam] not in ugot:
                     continue
@@ -550,7 +553,7 @@ def eval_scenarios(ctx, scs, tmpdir, add):
             lab = {'text': 'text_label', 'json': 'json_label', 'policy-text': 'text_label', 'policy-json': 'pj_label'}[sc['out']]
             tsrc = ('targets_single %s %s' % (cstr(sc['arg']), OP)) if sc['where'] == 'cli' else ('targets_file %s %s' % (cstr(sc['content']), OP))
             add('chk_peer %s (%s) (pref_of_flags %s) %s %s %s %s %s %s' % (lab, tsrc, FL, R, cbool(ob['kind'] == 2), clist(ob['labels'] + ob['msgs'], cstr), clist(ob['uconn'], cconn),
-                cbool(sc['where'] == 'file' and sc['out'] in ('json', 'policy-json')), clist(ob['wlabels'], cstr)), desc, nt)
+                cbool(sc['out'] in ('json', 'policy-json')), clist(ob['wlabels'], cstr)), desc, nt)
         n_or += oracle(ctx, sc, ob)
     return n_or
 
